@@ -108,6 +108,12 @@ def rule_defaults(ctx, rid='RD'):
     for q, frozen in sorted(mine.items()):
         fi = ctx.P.functions.get(q)
         if fi is None:
+            name = q.rsplit('.', 1)[-1]
+            if name.startswith('_') and not name.startswith('__') and not any(f.name == name for f in ctx.P.functions.values()):
+                # a private helper that was merged into its caller: nobody can omit its arguments any more
+                for p_ in sorted(frozen):
+                    ctx.holds(rid, '%s(%s): private helper no longer exists anywhere (merged into its callers)' % (q.replace('dimarray.', ''), p_))
+                continue
             ctx.undecide(rid, 'public function %s of the defaults table no longer exists' % q)
             continue
         ctx.functions.add(q)
